@@ -347,8 +347,10 @@ func c11Tables(p *Prog, r *Report) {
 	r.Tables["client_detail_code_to_sentinel"] = tableJSON(t.FromPb)
 	r.Tables["server_sentinel_to_status_code"] = tableJSON(t.ToCode)
 	r.Tables["client_status_code_to_sentinel"] = tableJSON(t.FromCode)
-	if t.ToPb == nil || t.FromPb == nil {
-		// tables and search helpers instead of switches: the adapter's entry points are run on abstract errors
+	{
+		// the adapter's entry points run on abstract errors: whatever the tables are written as (switches, look-up
+		// helpers that return the sentinel for the caller to wrap, data searched by generic helpers), this is what
+		// travels; the syntactic reading above stays as the fallback for adapters outside the evaluator's fragment
 		var t2 errTables
 		if c11TablesByEval(p, &t2) {
 			t = t2
